@@ -115,8 +115,18 @@ static void legacy_norm_case(Rng &r) {
   double mn, mx;
   std::vector<double> vs;
   long cnt = r.coin(1, 3) ? 2000 + (long)r.below(3000) : 20 + (long)r.below(400);
-  if (scale == "angle") { mn = 0.2; mx = 2.9; for (long i = 0; i < cnt; i++) vs.push_back(0.25 + r.unit() * 2.6); }
-  else { mn = r.coin() ? 0.1 : 3.0; mx = mn + 0.5 + r.unit() * 11; for (long i = 0; i < cnt; i++) vs.push_back(mn + r.unit() * (mx - mn)); }
+  // the natural ranges too: angles over [0, pi] (sin = 0 at both ends), bonds from 0 (r = 0 in the first bin); rarely the point where the
+  // scaling is singular is the LAST grid point (range ending at 0) or the only one (one bin)
+  int shape = (int)r.below(8);
+  if (shape == 7) n = 2 + (long)r.below(2);   // two or three bins (one bin has no spacing in the legacy class: not judged)
+  if (scale == "angle") {
+    if (shape < 3) { mn = 0.2; mx = 2.9; } else { mn = 0.0; mx = 3.141592653589793; }
+    for (long i = 0; i < cnt; i++) vs.push_back(mn + 0.02 + r.unit() * (mx - mn - 0.04));
+  } else {
+    if (shape == 6 && scale == "bond") { mn = -2.0; mx = 0.0; }
+    else { mn = shape < 3 ? 0.0 : r.coin() ? 0.1 : 3.0; mx = mn + 0.5 + r.unit() * 11; }
+    for (long i = 0; i < cnt; i++) vs.push_back(mn + r.unit() * (mx - mn));
+  }
   legacy_norm(scale, mn, mx, n, vs);
 }
 
